@@ -11,7 +11,7 @@
  * @mem split
  * @defs -DZSTD_NO_INTRINSICS
  * @cbmc --unwind 6 --unwindset __builtin_memcpy.0:14,__builtin_memset.0:14,__builtin_memmove.0:14,__builtin_memmove.1:14,ZSTD_safecopyLiterals.0:40,harness.0:70,harness.1:70,harness.2:70,harness.3:70,harness.4:70,harness.5:70
- * @timeout 900
+ * @timeout 1800
  * @memgb 8
  * @instance val backend=cadical -DH_VALIDATE=1
  * @instance parse backend=cadical -DH_VALIDATE=0
